@@ -234,6 +234,14 @@ def classify(case, out, calls, events, want, got):
     told_missing = any(x["ev"] == "acct_missing_told" for x in events)
     if want == "complete" and got == "failed" and told_missing and "Job information not found" in exc:
         return "acct-lag-fatal"
+    if want == "complete" and got == "failed" and told_missing and case["wf"] != "single" and "result.errored" in exc:
+        # inside a workflow the worker's RuntimeError is stored in the node's error file and the submission only says
+        # "errored": the mechanism is recognised by pydra never asking about the job again after the empty sacct answer
+        last = {}
+        for x in events:
+            last[x["job"]] = x["ev"]
+        if any(ev == "acct_missing_told" for ev in last.values()):
+            return "acct-lag-fatal"
     if want == "failed" and got == "complete":
         # the scheduler's last verdict for some job is a failure although its script ran to a result
         last = {}
